@@ -1916,7 +1916,7 @@ func (l *LanguageServer) handleTextDocumentDidSave(
 	ctx context.Context,
 	params types.TextDocumentDidSaveParams,
 ) (any, error) {
-	if params.Text != nil && l.getLoadedConfig() == nil {
+	if params.Text != nil && l.getLoadedConfig() != nil {
 		if !strings.Contains(*params.Text, "\r\n") {
 			return struct{}{}, nil
 		}
